@@ -465,7 +465,7 @@ def run(chk):
                 chk.spec_drift(f'run {run_["tid"]}: {x["clause"]} at event {x["at"]}')
     # 4. the real Simple / Distance matchers on geometric instances
     plan.setdefault('gallow', GALLOW)
-    ng = {'C03': (150, 1500), 'C04': (150, 1500), 'C05': (150, 1500), 'C06': (150, 1500), 'C07': (120, 1200),
+    ng = {'C03': (150, 1500), 'C04': (400, 3000), 'C05': (150, 1500), 'C06': (150, 1500), 'C07': (120, 1200),
           'C08': (120, 1200), 'C09': (150, 1500)}.get(pid)
     if ng:
         geo_part(chk, pid, rng, ng[thorough], plan)
@@ -562,9 +562,14 @@ def geo_part(chk, pid, rng, n, plan):
     relational properties, well-formedness)"""
     runs = []
     for i in range(n):
-        inst = geom.gen_instance(rng, maxn=6, maxT=5, G=rng.choice([2, 3, 4]))
+        inst = geom.gen_instance(rng, maxn=6, maxT=5, G=rng.choice([2, 3, 4]), p_linked=(0.8 if pid == 'C04' else 0.25),
+                                 family=(rng.choice(['random', 'street']) if pid == 'C04' and i % 2 else None))
         allow = tuple(a for a in ('ne', 'W', 'nodes', 'cuts', 'goback') if a in plan['gallow'])
         cf = geom.gen_config(rng, allow=allow)
+        if pid == 'C04' and inst['linked']:
+            cf['only_edges'] = True          # linked (parallel) edges are moves between edge states
+            if 'linked-sibling' in inst['family'] and rng.random() < 0.7:
+                cf.update(max_dist=None, max_dist_init=None, min_prob_norm=None, W=0)
         if pid == 'C06':
             cf.update(ne=True, W=0, avoid_goingback=False)
         if pid == 'C07' and not cf['W']:
